@@ -67,6 +67,7 @@ class Pools:
         self.canonical = [u["name"] for u in p.units]
         self.mult = [u["name"] for u in p.units if u["conv"] == "scale"]
         self.rational = []      # multiplicative units with an exact rational root factor
+        self.positive = []      # ... and a positive one (order / abs are only covariant for those)
         self.irrational = []
         self.root = {}
         for u in p.units:
@@ -78,6 +79,8 @@ class Pools:
                 self.irrational.append(u["name"])
             else:
                 self.rational.append(u["name"])
+                if f > 0:
+                    self.positive.append(u["name"])
             self.root[u["name"]] = (f, b)
         self.nonmult = [u["name"] for u in p.units if u["conv"] != "scale"]
         self.spellings = {}     # canonical -> [spellings]
